@@ -88,7 +88,7 @@ func suiteSchedule(g *gen, e *emitter, n int) {
 		var a, b *cors.Config
 		for {
 			c := g.config(100)
-			if _, err := cors.NewMiddleware(c); err == nil {
+			if accepts(c) {
 				a = &c
 				break
 			}
@@ -99,7 +99,7 @@ func suiteSchedule(g *gen, e *emitter, n int) {
 		default:
 			for {
 				c := g.config(100)
-				if _, err := cors.NewMiddleware(c); err == nil {
+				if accepts(c) {
 					b = &c
 					break
 				}
@@ -176,7 +176,7 @@ func suiteStress(g *gen, e *emitter, n int) {
 		for k := range cfgs {
 			for {
 				c := g.config(100)
-				if _, err := cors.NewMiddleware(c); err == nil {
+				if accepts(c) {
 					cfgs[k] = c
 					break
 				}
